@@ -155,3 +155,8 @@ package lib
 //@ func (*QuorumCertificate).EqualPayloads
 //@   pure
 //@   ensures[same] result ==> x != nil && x.Header != nil && x.Header.Height == compare.Header.Height && bytes(x.BlockHash) == bytes(compare.BlockHash) && bytes(x.ResultsHash) == bytes(compare.ResultsHash) && bytes(x.ProposerKey) == bytes(compare.ProposerKey)
+
+// ---- C01/C05: key parsing keeps the key bytes ---------------------------------------------------------------
+//@ func PublicKeyFromBytes
+//@   pure
+//@   ensures[same] isnil(result1) ==> !isnil(result0) && keyBytes(result0) == bytes(pubKey)
